@@ -403,3 +403,95 @@ func TestPropCancelDuringNotify(t *testing.T) {
 		}
 	})
 }
+
+// ---------------------------------------------------------------- bursts of subscriptions
+
+// TestPropSubscriptionBurst: many sub/qsub requests for the same database are handled at the same moment (Handle
+// starts a goroutine per request, so they register concurrently), then one write follows: every one of them must
+// announce it, and every one must end with done when cancelled. A subscription that got lost while registering shows
+// as a missing announcement and a cancel that is never answered.
+func TestPropSubscriptionBurst(t *testing.T) {
+	if path := os.Getenv("VERIF_REPLAY_CASE"); path != "" {
+		if _, ok := readJournal(path); ok {
+			return
+		}
+		if _, ok := readCancelRaceJournal(path); ok {
+			return
+		}
+	}
+	rapid.Check(t, func(t *rapid.T) {
+		var dbs []string
+		for _, b := range backends {
+			if b.Persistent && !b.SafeKeys {
+				dbs = append(dbs, b.Name)
+			}
+		}
+		db := rapid.SampledFrom(dbs).Draw(t, "db")
+		n := rapid.IntRange(8, 24).Draw(t, "subs")
+		rounds := rapid.IntRange(20, 60).Draw(t, "rounds")
+		ns := newNS()
+		if j := os.Getenv("VERIF_JOURNAL"); j != "" {
+			_ = os.WriteFile(j, []byte(fmt.Sprintf(`{"burst":{"db":%q,"subs":%d,"rounds":%d}}`, db, n, rounds)), 0o644)
+		}
+		for round := 0; round < rounds; round++ {
+			cn := newConn()
+			fail := func(format string, args ...any) {
+				t.Fatalf("%s\n  burst of %d subscriptions on %s, round %d\n  replies:\n%s", fmt.Sprintf(format, args...), n, db, round, renderReplies(cn.snapshot()))
+			}
+			count := func(op, typ string) int {
+				k := 0
+				for _, r := range cn.snapshot() {
+					if r.opID == op && r.typ == typ {
+						k++
+					}
+				}
+				return k
+			}
+			waitFor := func(what string, cond func() bool) {
+				w := newWaiter()
+				for !cond() {
+					if !w.pause() {
+						fail("WEDGED: %s did not happen within %s", what, waitBound)
+					}
+				}
+			}
+			prefix := fmt.Sprintf("%s:%sb%d/", db, ns, round)
+			for i := 0; i < n; i++ {
+				kind := kSub
+				if i%5 == 4 {
+					kind = kQsub
+				}
+				cn.handle([]byte(fmt.Sprintf("s%d|%s|query %s", i, kind, prefix)))
+			}
+			if _, ok, dump := waitQuiet(2); !ok {
+				fail("WEDGED while registering:\n%s", dump)
+			}
+			w, err := record.NewWrapper(prefix+"x", nil, dsd.JSON, []byte(`{"N":5}`))
+			if err != nil {
+				fail("harness: %s", err)
+			}
+			if err := internalDB.Put(w); err != nil {
+				fail("harness: write: %s", err)
+			}
+			if _, ok, dump := waitQuiet(2); !ok {
+				fail("WEDGED after the write:\n%s", dump)
+			}
+			for i := 0; i < n; i++ {
+				op := fmt.Sprintf("s%d", i)
+				if k := count(op, "upd") + count(op, "new"); k != 1 {
+					fail("subscription %s announced the write %d times, want once", op, k)
+				}
+				cn.handle([]byte(op + "|cancel"))
+			}
+			for i := 0; i < n; i++ {
+				op := fmt.Sprintf("s%d", i)
+				want := 1 + btoi(i%5 == 4)
+				waitFor("the done of "+op, func() bool { return count(op, "done") >= want })
+			}
+			if parked, ok, dump := waitQuiet(2); !ok || parked != 0 {
+				fail("WEDGED: handler goroutines are left after all subscriptions were cancelled (%d parked):\n%s", parked, dump)
+			}
+		}
+		stats.Case(fmt.Sprintf("burst %s %d %d", db, n, rounds), true, "subscription_burst")
+	})
+}
